@@ -174,7 +174,9 @@ func (s *setSubj[T]) GenOp(r *Rng, id int, c *Client) Op {
 	case "clearer":
 		w = []int{10, 3, 3}
 	}
-	if len(s.m) > 0 && len(s.m) <= 200 && r.P(1, 25) {
+	if len(s.m) > 0 && len(s.m) <= 200 && s.cfg.Elem != "float" && r.P(1, 25) {
+		// (not over floats: a hash set takes every NaN it is given as a new member, so handing its Values() back
+		// doubles them each time while the model counts one - the container, not the model, would decide the cost)
 		// the set's own Values() handed back to it: all of it to Add (nothing to do), all or all but one member
 		// to Remove
 		return Op{ID: id, N: r.PickS("AddOwn", "AddOwn", "RemoveOwn", "RemoveOwnTail"), A: []int{r.Intn(1000)}}
